@@ -63,6 +63,23 @@ def oracle(case, out):
     return None
 
 
+PCG_M = 6364136223846793005
+PCG_INC = ((0xf35d3918378e53c4 << 1) | 1) & (2**64 - 1)
+
+
+def seed_for_output(want, draw, low_bits=0):
+    """a seed for gp_new_random_state whose `draw`-th output (1-based) is the 32-bit value `want`:
+    PCG32's XSH-RR output function inverted for rotation 0, the LCG stepped backwards"""
+    M64 = 2**64 - 1
+    t = (want << 27) | (low_bits & ((1 << 27) - 1))          # T = S ^ (S >> 18), top 5 bits (rotation) zero
+    s = t ^ (t >> 18) ^ (t >> 36) ^ (t >> 54)
+    minv = pow(PCG_M, -1, 2**64)
+    for _ in range(draw - 1):                                # state before the earlier draws
+        s = ((s - PCG_INC) * minv) & M64
+    # state after seeding = (inc + seed) * M + inc
+    return ((((s - PCG_INC) * minv) & M64) - PCG_INC) & M64
+
+
 def gen(ctx):
     r = ctx.rng
     quick = ctx.tier == "quick"
@@ -114,6 +131,12 @@ def gen(ctx):
     for seed in [0, 1, 2, 0xdeadbeef, U64 - 1] + [r.randrange(U64) for _ in range(5 if quick else 100)]:
         add("rand %d %d" % (seed, 20))
         add("frand %d %d" % (seed, 20))
+    # the ends of the 32-bit output range, where a fraction could touch 1.0: constructed seeds
+    for want in (0xFFFFFFFF, 0, 0xFFFFFFFE, 0x80000000):
+        for draw in (1, 2, 3):
+            sd = seed_for_output(want, draw, r.getrandbits(27))
+            add("rand %d %d" % (sd, 4))
+            add("frand %d %d" % (sd, 4))
     grid = [-2**31, -2**31 + 1, -2**30, -7, -1, 0, 1, 5, 2**30, 2**31 - 2, 2**31 - 1]
     for lo in grid:
         for hi in grid:
